@@ -241,6 +241,7 @@ type write struct {
 	Kind      string // GwAssign | GwIndex | GwField | GwAppend | GwDelete | GwDeref | GwIncr
 	Root      string // RtRecv | RtParam | RtGlobal | RtOther
 	Ctor      bool
+	CtorKind  string // CkNone | CkUnmarshal (JSON decoding hook) | CkNamed (constructor by name) | CkHelper (unexported, every caller constructs)
 	InInit    bool
 	InOnce    bool
 	NilGuard  bool
@@ -274,6 +275,7 @@ type funcCtx struct {
 // recv.M(..) called inside `if recv.f == nil {..}` in a method of T: M's writes to f are lazily guarded
 type guardedCall struct {
 	Type, Method, Field string
+	Caller              *types.Func
 }
 
 // ctorName: constructor-like by name.  Methods only when they are the JSON decoding hooks (a method called loadX
@@ -492,6 +494,34 @@ func (c *funcCtx) sharedRef(e ast.Expr) (aliasInfo, bool) {
 	return aliasInfo{typeName(n), f, kind}, true
 }
 
+// recordAddr: the address of e escapes into a call
+func (c *funcCtx) recordAddr(e ast.Expr, stack []ast.Node) {
+	e = ast.Unparen(e)
+	root := rootIdent(e)
+	if root == nil {
+		return
+	}
+	ro := c.info.Uses[root]
+	if ro == nil {
+		return
+	}
+	if isPkgLevel(ro) {
+		if inGoflow(ro.Pkg()) {
+			c.emit(write{Global: ro.Name(), GlobalPkg: rel(ro.Pkg().Path()), Kind: "GwAddr", Root: "RtGlobal"}, e, stack)
+		}
+		return
+	}
+	kind, ok := c.rootKind(e)
+	if !ok {
+		return
+	}
+	n, f, _ := c.fieldOnPath(e)
+	if n == nil || !c.a.shared[n] {
+		return
+	}
+	c.emit(write{Type: typeName(n), Field: f, Kind: "GwAddr", Root: kind, shared: true}, e, stack)
+}
+
 func (c *funcCtx) record(lhs ast.Expr, kind string, stack []ast.Node) {
 	lhs = ast.Unparen(lhs)
 	if id, ok := lhs.(*ast.Ident); ok && id.Name == "_" {
@@ -657,7 +687,19 @@ func (c *funcCtx) scan(body ast.Node) {
 		}
 		return true
 	})
-	// a fresh local that is re-assigned from something not fresh is no longer fresh
+	// a fresh local that is re-assigned from something not fresh is no longer fresh (f, err = lookup() included)
+	ast.Inspect(body, func(n ast.Node) bool {
+		if x, ok := n.(*ast.AssignStmt); ok && x.Tok == token.ASSIGN && len(x.Lhs) != len(x.Rhs) {
+			for _, l := range x.Lhs {
+				if id, ok := l.(*ast.Ident); ok {
+					if o := c.info.Uses[id]; o != nil && c.fresh[o] && isRef(o.Type()) {
+						delete(c.fresh, o)
+					}
+				}
+			}
+		}
+		return true
+	})
 	ast.Inspect(body, func(n ast.Node) bool {
 		if x, ok := n.(*ast.AssignStmt); ok && x.Tok == token.ASSIGN && len(x.Lhs) == len(x.Rhs) {
 			for i, l := range x.Lhs {
@@ -726,6 +768,23 @@ func (c *funcCtx) scan(body ast.Node) {
 			}
 		case *ast.IncDecStmt:
 			c.record(x.X, "GwIncr", stack)
+		case *ast.UnaryExpr:
+			// &e handed to a callee (json.Unmarshal(data, &shared.f), helper(&pkgVar)): the callee can write through it
+			if x.Op == token.AND && len(stack) >= 2 {
+				if _, isLit := ast.Unparen(x.X).(*ast.CompositeLit); !isLit {
+					if par, ok := stack[len(stack)-2].(*ast.CallExpr); ok {
+						isArg := false
+						for _, a := range par.Args {
+							if ast.Unparen(a) == ast.Expr(x) {
+								isArg = true
+							}
+						}
+						if isArg {
+							c.recordAddr(x.X, stack)
+						}
+					}
+				}
+			}
 		case *ast.CallExpr:
 			if sel, ok := ast.Unparen(x.Fun).(*ast.SelectorExpr); ok && c.recv != nil && c.guarded != nil {
 				if id, ok := ast.Unparen(sel.X).(*ast.Ident); ok && c.info.Uses[id] == c.recv {
@@ -737,7 +796,7 @@ func (c *funcCtx) scan(body ast.Node) {
 									for k := 0; k < st.NumFields(); k++ {
 										fname := st.Field(k).Name()
 										if strings.Contains(cond, id.Name+"."+fname+" == nil") {
-											*c.guarded = append(*c.guarded, guardedCall{typeName(rn), rn.Obj().Name() + "." + sel.Sel.Name, fname})
+											*c.guarded = append(*c.guarded, guardedCall{typeName(rn), rn.Obj().Name() + "." + sel.Sel.Name, fname, c.fn})
 										}
 									}
 								}
@@ -1175,10 +1234,40 @@ func main() {
 		}
 		return true
 	}
-	for i := range writes {
-		if !writes[i].Ctor && writes[i].fn != nil && ctorLike(writes[i].fn, 0) {
-			writes[i].Ctor = true
+	helperRule := func(f *types.Func) bool {
+		if f == nil || f.Exported() {
+			return false
 		}
+		cs := callers[f.Origin()]
+		n := 0
+		for c := range cs {
+			if c == f {
+				continue
+			}
+			n++
+			if !ctorLike(c, 1) {
+				return false
+			}
+		}
+		return n > 0
+	}
+	for i := range writes {
+		w := &writes[i]
+		w.CtorKind = "CkNone"
+		if w.fn == nil {
+			continue
+		}
+		sig, _ := w.fn.Type().(*types.Signature)
+		isMethod := sig != nil && sig.Recv() != nil
+		switch {
+		case isMethod && (w.fn.Name() == "UnmarshalJSON" || w.fn.Name() == "UnmarshalText"):
+			w.CtorKind = "CkUnmarshal"
+		case helperRule(w.fn):
+			w.CtorKind = "CkHelper"
+		case ctorLike(w.fn, 0):
+			w.CtorKind = "CkNamed"
+		}
+		w.Ctor = w.CtorKind != "CkNone"
 	}
 	for i := range writes {
 		for _, g := range guardedCalls {
@@ -1291,10 +1380,26 @@ func main() {
 			continue
 		}
 		tn := typeName(n)
-		if len(mutatingMethods[tn]) == 0 {
+		// mutating methods of the type and of the types it embeds (promoted methods)
+		var allMut func(nt *types.Named, depth int) []string
+		allMut = func(nt *types.Named, depth int) []string {
+			res := append([]string{}, mutatingMethods[typeName(nt)]...)
+			if st, ok := nt.Underlying().(*types.Struct); ok && depth < 4 {
+				for k := 0; k < st.NumFields(); k++ {
+					if st.Field(k).Embedded() {
+						if en := namedOf(st.Field(k).Type()); en != nil && inGoflow(en.Obj().Pkg()) {
+							res = append(res, allMut(en, depth+1)...)
+						}
+					}
+				}
+			}
+			return res
+		}
+		muts := allMut(n, 0)
+		if len(muts) == 0 {
 			continue
 		}
-		lv := lazyVar{Pkg: rel(g.p.PkgPath), Var: g.v.Name(), Type: tn, Methods: mutatingMethods[tn]}
+		lv := lazyVar{Pkg: rel(g.p.PkgPath), Var: g.v.Name(), Type: tn, Methods: muts}
 		// constructor in the initialiser: eager when its body assigns every guard field of the type in a
 		// composite literal or calls a method of the type (which then runs before the value is published)
 		if ce, ok := ast.Unparen(g.init).(*ast.CallExpr); ok {
@@ -1500,7 +1605,7 @@ func main() {
 			}
 		}
 		if w.shared && w.Global == "" {
-			k := fmt.Sprintf("f|%s|%s|%s|%s|%s|%v|%v|%v|%v", w.Pkg, w.Func, w.Type, w.Field, w.Root, w.Ctor, w.UnderLock, w.NilGuard, w.InOnce)
+			k := fmt.Sprintf("f|%s|%s|%s|%s|%s|%v|%v|%v|%v", w.Pkg, w.Func, w.Type, w.Field, w.Root, w.CtorKind, w.UnderLock, w.NilGuard, w.InOnce)
 			if !seenW[k] {
 				seenW[k] = true
 				fws = append(fws, w)
@@ -1524,7 +1629,7 @@ func main() {
 			sep = ""
 		}
 		fmt.Fprintf(&sb, "  (* %s *)\n  {| fw_pkg := %s; fw_func := %s; fw_type := %s; fw_field := %s; fw_root := %s; fw_ctor := %s; fw_under_lock := %s; fw_nil_guard := %s; fw_in_once := %s |}%s\n",
-			w.Pos, coqString(w.Pkg), coqString(w.Func), coqString(w.Type), coqString(w.Field), w.Root, coqBool(w.Ctor), coqBool(w.UnderLock), coqBool(w.NilGuard), coqBool(w.InOnce), sep)
+			w.Pos, coqString(w.Pkg), coqString(w.Func), coqString(w.Type), coqString(w.Field), w.Root, w.CtorKind, coqBool(w.UnderLock), coqBool(w.NilGuard), coqBool(w.InOnce), sep)
 	}
 	sb.WriteString("].\n\n")
 	sb.WriteString("Definition global_shared_vars : list shared_var := [\n")
@@ -1535,7 +1640,46 @@ func main() {
 		}
 		ms := make([]string, len(lv.Methods))
 		for k, m := range lv.Methods {
-			ms[k] = coqString(m)
+			// lazy: every receiver write of the method is nil-guarded; callers: functions of the library that reference it
+			lazy, any := true, false
+			for _, w := range writes {
+				if w.Root == "RtRecv" && !w.Ctor && w.Func == m {
+					any = true
+					if !w.NilGuard {
+						lazy = false
+					}
+				}
+			}
+			ncall := 0
+			for _, mi := range methods {
+				if mi.recv.Obj().Name()+"."+mi.fd.Name.Name == m {
+					if fo, ok := mi.p.TypesInfo.Defs[mi.fd.Name].(*types.Func); ok {
+						ncall = len(callers[fo.Origin()])
+						if topLevelUse[fo.Origin()] {
+							ncall++
+						}
+						// also lazy: only ever called from constructors and from inside `if recv.f == nil { recv.M() }`
+						if !lazy {
+							guardedBy := map[*types.Func]bool{}
+							for _, gc := range guardedCalls {
+								if gc.Method == m && gc.Caller != nil {
+									guardedBy[gc.Caller] = true
+								}
+							}
+							if len(guardedBy) > 0 && !fo.Exported() {
+								all := true
+								for c := range callers[fo.Origin()] {
+									if !guardedBy[c] && !ctorLike(c, 0) {
+										all = false
+									}
+								}
+								lazy = all
+							}
+						}
+					}
+				}
+			}
+			ms[k] = fmt.Sprintf("{| mu_name := %s; mu_lazy := %s; mu_callers := %d |}", coqString(m), coqBool(lazy && any), ncall)
 		}
 		fmt.Fprintf(&sb, "  {| sv_pkg := %s; sv_var := %s; sv_type := %s; sv_ctor := %s; sv_eager := %s; sv_mutators := [%s] |}%s\n",
 			coqString(lv.Pkg), coqString(lv.Var), coqString(lv.Type), coqString(lv.Ctor), coqBool(lv.Eager), strings.Join(ms, "; "), sep)
@@ -1553,7 +1697,7 @@ func main() {
 		}
 		fmt.Println("== shared field writes")
 		for _, w := range fws {
-			fmt.Printf("%-24s %-40s %-44s %-18s %-8s ctor=%v lock=%v nil=%v %s\n", w.Pkg, w.Func, w.Type, w.Field, w.Root, w.Ctor, w.UnderLock, w.NilGuard, w.Pos)
+			fmt.Printf("%-24s %-40s %-44s %-18s %-8s ctor=%v lock=%v nil=%v %s\n", w.Pkg, w.Func, w.Type, w.Field, w.Root, w.CtorKind, w.UnderLock, w.NilGuard, w.Pos)
 		}
 		fmt.Println("== global vars of types with mutating methods")
 		for _, lv := range lvs {
